@@ -390,7 +390,7 @@ fn c17(seed: u64, tier: &str, thorough: bool) -> CheckPlan {
         ],
         opts: SupOpts::default(),
         required_probes: vec!["histories_checked".into(), "all_keys_collide".into(), "equality_coarser_than_identity".into(), "alternate_layout".into(),
-            "violation_inside_collection_callback".into(), "complete_run_after_violation_matches_model".into()],
+            "violation_inside_collection_callback".into(), "complete_run_after_violation_matches_model".into(), "search_limited_history_completed".into()],
         exhaustive: false,
         extra: json!({}),
     }
@@ -425,7 +425,7 @@ fn c19(seed: u64, tier: &str, thorough: bool) -> CheckPlan {
             "memory-safety of the unsafe merge/heap code on failure paths is observed through the accounting model (a lost or duplicated Rc changes the deallocation multiset) and crashes, not through a sanitizer".into(),
         ],
         opts: SupOpts::default(),
-        required_probes: vec!["reference_compared".into(), "comparator_error_value_midway".into(), "violation_inside_comparator".into(), "rerun_after_interrupted_sort_matches_reference".into(), "coherence_relations_checked".into()],
+        required_probes: vec!["reference_compared".into(), "comparator_error_value_midway".into(), "violation_inside_comparator".into(), "rerun_after_interrupted_sort_matches_reference".into(), "coherence_relations_checked".into(), "ordered_pair_failure_reached".into()],
         exhaustive: false,
         extra: json!({}),
     }
